@@ -1,12 +1,13 @@
 import MTfitVerif.Model.PyxKernels
 import MTfitVerif.Model.Convert
 import MTfitVerif.Real.Inst
+import MTfitVerif.Real.PyxTapeLemmas
 /-
   C20 — the compiled Tape → six-vector kernel (`cTape_MT6`, translated from the .pyx source on every run)
   computes the same six-vector as the model of the Python path (`tapeToMt6`, tied to `Tape_MT6` by C12).
 -/
 namespace MTfitVerif.C20
-open MTfitVerif MTfitVerif.Convert
+open MTfitVerif MTfitVerif.Convert MTfitVerif.PyxTape
 
 /-- for every lune position, strike, dip cosine in [0, 1] and slip angle the compiled kernel returns the components of the
     Python-path six-vector (the previous content of the output cells is irrelevant) -/
@@ -14,6 +15,8 @@ theorem cTape_MT6_eq (γ δ κ h σ : ℝ) (hh : 0 ≤ h ∧ h ≤ 1) (m0 m1 m2 
     Pyx.cconvert.cTape_MT6 γ δ κ h σ m0 m1 m2 m3 m4 m5 =
       ((tapeToMt6 γ δ κ h σ).a, (tapeToMt6 γ δ κ h σ).b, (tapeToMt6 γ δ κ h σ).c,
        (tapeToMt6 γ δ κ h σ).d, (tapeToMt6 γ δ κ h σ).e, (tapeToMt6 γ δ κ h σ).f) := by
-  sorry
+  have hh' : -1 ≤ h ∧ h ≤ 1 := ⟨by linarith [hh.1], hh.2⟩
+  rw [cTape_MT6_unfold, tapeKer_eq _ _ _ (dot_tK κ σ hh') (dot_pK κ σ hh'), tapeToMt6_eq,
+    tapeToMt33_eq γ δ κ σ hh']
 
 end MTfitVerif.C20
